@@ -211,9 +211,21 @@ UNITS = [{
         '::truncate': {'props': N, 'requires': REQ, 'ensures': [(['C08'], '''r matches Ok(c) ==> (c matches VCell::Number(v) && (num_arg(*old(vm), 1) matches Some(x)
             && (is_exact(v) <==> is_exact(x)) && (is_exact(x) ==> is_int(v) && vnum(v) == tdiv(vnum(x), vden(x)))))''')]},
         # min / max compare with `<` / `>`: provided trait methods cannot be given a specification in this Verus, so they are not under contract
-        '::divide': {'props': N, 'requires': REQ},
-        '::quotient': {'props': N, 'requires': REQ},
-        '::remainder': {'props': N, 'requires': REQ},
+        # (x is the first argument = arg 2, y the second = arg 1)
+        '::divide': {'props': N, 'requires': REQ, 'ensures': [
+            (['C08'], '''r matches Ok(c) ==> (c matches VCell::Number(v) && (arg(*old(vm), 0) == VCell::ArgumentCount(2) ==>
+                (num_arg(*old(vm), 2) matches Some(x) && (num_arg(*old(vm), 1) matches Some(y) && (is_exact(v) ==> is_exact(x) && is_exact(y) && is_quot(v, x, y))))))'''),
+            (['C08'], '''r matches Ok(c) ==> (c matches VCell::Number(v) && (arg(*old(vm), 0) == VCell::ArgumentCount(1) ==>
+                (num_arg(*old(vm), 1) matches Some(y) && (is_exact(v) ==> is_exact(y) && is_quot(v, Number::Fixnum(1i64), y)))))'''),
+        ]},
+        '::quotient': {'props': N, 'requires': REQ, 'ensures': [
+            (['C08'], '''r matches Ok(c) ==> (c matches VCell::Number(v) && (num_arg(*old(vm), 2) matches Some(x) && (num_arg(*old(vm), 1) matches Some(y)
+                && (is_exact(x) && is_exact(y) ==> is_int(v) && vnum(v) == tdiv(vnum(x), vnum(y))))))'''),
+        ]},
+        '::remainder': {'props': N, 'requires': REQ, 'ensures': [
+            (['C08'], '''r matches Ok(c) ==> (c matches VCell::Number(v) && (num_arg(*old(vm), 2) matches Some(x) && (num_arg(*old(vm), 1) matches Some(y)
+                && (is_exact(x) && is_exact(y) ==> is_int(v) && vnum(v) == trem(vnum(x), vnum(y))))))'''),
+        ]},
         # ::modulo is not under contract: Number::modulo needs `!(Float, BigInt)` (closure results are opaque to Verus), which the
         # procedure cannot establish for (modulo 5.0 <bignum>)
         '::expt': {'props': N, 'requires': REQ},
